@@ -39,7 +39,7 @@ def kgOf (fl : Worker → Flags) : Worker → Bool := fun w => (fl w).keepGoing
 
 structure CInv (n W : Nat) (sdeps : Task → List Task) (fl : Worker → Flags) (s : Sys V) (sc : Scan) : Prop where
   inv : Inv s
-  nocrash : ∀ w, s.wk w ≠ .crashed
+  nodead : ∀ t w, s.lock t = .held w → s.wk w ≠ .crashed      -- no lock is held by a dead worker
   nostop : ∀ w o k, s.wk w ≠ .stopping o k
   noraise : ∀ w, s.wk w ≠ .raising
   ftkg : ∀ w t, s.wk w = .failedTask t → (fl w).keepGoing = true
@@ -49,18 +49,40 @@ structure CInv (n W : Nat) (sdeps : Task → List Task) (fl : Worker → Flags) 
   hd : ∀ w t, s.wk w = .holdingDone t → s.res t ≠ none
   dn : ∀ w t, sc.done w t = true → s.res t ≠ none ∨ (∃ w', csTask (s.wk w') = some t) ∨ sc.failedT t = true
   cov : ∀ t, t < n → s.res t ≠ none ∨ (∃ d, d ∈ sdeps t ∧ s.res d = none) ∨ sc.failedT t = true ∨
-          ∃ w, w < W ∧ (∀ c, s.wk w ≠ .exited c) ∧ (busy (s.wk w) = true ∨ sc.flagged w t = false)
+          ∃ w, w < W ∧ (∀ c, s.wk w ≠ .exited c) ∧ s.wk w ≠ .crashed ∧ (busy (s.wk w) = true ∨ sc.flagged w t = false)
 
 /-! ### how one accepted event of such a history changes things -/
 
 theorem fclean_simple (P : Prog V) (fl : Worker → Flags) {s s' : Sys V} {e : Ev V} (hc : FClean fl e)
     (hs : accept P fl s e = some s')
-    (h2 : ∀ w, s.wk w ≠ .crashed) (h4 : ∀ w o k, s.wk w ≠ .stopping o k) (h5 : ∀ w, s.wk w ≠ .raising)
+    (h4 : ∀ w o k, s.wk w ≠ .stopping o k) (h5 : ∀ w, s.wk w ≠ .raising)
     (h6 : ∀ w t, s.wk w = .failedTask t → (fl w).keepGoing = true) :
-    (∀ w, s'.wk w ≠ .crashed) ∧ (∀ w o k, s'.wk w ≠ .stopping o k) ∧ (∀ w, s'.wk w ≠ .raising) ∧
+    (∀ w o k, s'.wk w ≠ .stopping o k) ∧ (∀ w, s'.wk w ≠ .raising) ∧
     (∀ w t, s'.wk w = .failedTask t → (fl w).keepGoing = true) := by
   cases e <;> simp only [accept] at hs <;> (repeat' split at hs) <;> simp_all [FClean] <;> (try subst_vars) <;>
-    (refine ⟨?_, ?_, ?_, ?_⟩) <;> intros <;> (try simp only [upd] at *) <;> grind
+    (refine ⟨?_, ?_, ?_⟩) <;> intros <;> (try simp only [upd] at *) <;> grind
+
+/-- a lock becomes `held w` only by a successful `lock` of the idle worker `w` -/
+theorem heldLock_origin (P : Prog V) (fl : Worker → Flags) {s s' : Sys V} {e : Ev V}
+    (hs : accept P fl s e = some s') (t : Task) (w : Worker) (h : s'.lock t = .held w) :
+    s.lock t = .held w ∨ s.wk w = .idle := by
+  cases e <;> simp only [accept] at hs <;> (repeat' split at hs) <;> simp_all <;> (try subst_vars) <;>
+    (try simp only [upd] at h) <;> (try (split at h)) <;> (try simp_all) <;> grind
+
+/-- nobody dies in such a history (and the dead do not act) -/
+theorem crashed_static (P : Prog V) (fl : Worker → Flags) {s s' : Sys V} {e : Ev V} (hc : FClean fl e)
+    (hs : accept P fl s e = some s') (w : Worker) : s'.wk w = .crashed ↔ s.wk w = .crashed := by
+  cases e <;> simp only [accept] at hs <;> (repeat' split at hs) <;> simp_all [FClean] <;> (try subst_vars) <;>
+    (try simp only [upd]) <;> grind
+
+theorem nodead_step (P : Prog V) (fl : Worker → Flags) {s s' : Sys V} {e : Ev V} (hc : FClean fl e)
+    (hs : accept P fl s e = some s') (h2 : ∀ t w, s.lock t = .held w → s.wk w ≠ .crashed)
+    (t : Task) (w : Worker) (h : s'.lock t = .held w) : s'.wk w ≠ .crashed := by
+  intro hcr
+  have hcr0 := (crashed_static P fl hc hs w).mp hcr
+  rcases heldLock_origin P fl hs t w h with h1 | h1
+  · exact h2 t w h1 hcr0
+  · rw [h1] at hcr0; simp at hcr0
 
 /-- a worker inside a critical section stays there, or leaves it - by `unlock` with the result in the store, or after its
     task failed (by `unlock` or, with --keep-failed, `fail`) -/
@@ -161,7 +183,7 @@ theorem failedLock_origin (P : Prog V) (fl : Worker → Flags) {s s' : Sys V} {e
 theorem done_step (P : Prog V) (fl : Worker → Flags) (sdeps : Task → List Task) {s s' : Sys V} {e : Ev V} (sc : Scan)
     (hc : FClean fl e) (hs : accept P fl s e = some s') (hi : Inv s)
     (hlf : ∀ t w, s.lock t = .failed w → sc.failedT t = true)
-    (h2 : ∀ w, s.wk w ≠ .crashed)
+    (h2 : ∀ t w, s.lock t = .held w → s.wk w ≠ .crashed)
     (w : Worker) (t : Task) (hd : (scanStep sdeps (kgOf fl) sc e).done w t = true) :
     sc.done w t = true ∨ s'.res t ≠ none ∨ (∃ w', csTask (s'.wk w') = some t) ∨ (scanStep sdeps (kgOf fl) sc e).failedT t = true := by
   cases e with
@@ -217,7 +239,7 @@ theorem done_step (P : Prog V) (fl : Worker → Flags) (sdeps : Task → List Ta
               right; right; left
               rcases hi.held_cs w' t hl with h | h
               · exact ⟨w', h⟩
-              · exact absurd h (h2 w')
+              · exact absurd h (h2 t w' hl)
         · simp at hs
       · left; exact hd
     · left; simpa [scanStep] using hd
@@ -263,7 +285,7 @@ theorem hd_step (P : Prog V) (fl : Worker → Flags) {s s' : Sys V} {e : Ev V}
 /-- what the event's own worker `w` can do to a task it has not accounted for -/
 theorem flag_step (P : Prog V) (fl : Worker → Flags) (sdeps : Task → List Task) (n : Nat) {s s' : Sys V} {e : Ev V} (sc : Scan)
     (hc : FClean fl e) (hs : accept P fl s e = some s') (hg : scanGuard n sc e = true)
-    (hi : Inv s) (hlf : ∀ t w, s.lock t = .failed w → sc.failedT t = true) (h2 : ∀ w, s.wk w ≠ .crashed)
+    (hi : Inv s) (hlf : ∀ t w, s.lock t = .failed w → sc.failedT t = true) (h2 : ∀ t w, s.lock t = .held w → s.wk w ≠ .crashed)
     (w : Worker) (hw : evWorker e = some w) (t : Task) (ht : t < n) (hne : ∀ c, s.wk w ≠ .exited c)
     (hf : sc.flagged w t = false) :
     ((scanStep sdeps (kgOf fl) sc e).flagged w t = false ∧ ∀ c, s'.wk w ≠ .exited c) ∨ busy (s'.wk w) = true ∨ s'.res t ≠ none ∨
@@ -344,7 +366,7 @@ theorem flag_step (P : Prog V) (fl : Worker → Flags) (sdeps : Task → List Ta
           right; right; right; right; left
           rcases hi.held_cs w' t0 hlk with h | h
           · exact ⟨w', h⟩
-          · exact absurd h (h2 w')
+          · exact absurd h (h2 t0 w' hlk)
       · left
         have : ¬ t = t0 := fun h => htt h.symm
         exact ⟨by simp [Scan.flagged, scanStep, Scan.setDone, hf'.1, hf'.2, this], hx'⟩
@@ -396,9 +418,10 @@ theorem busy_lt (W : Nat) {s : Sys V} (ho : ∀ w, W ≤ w → s.wk w = .idle) (
   · exact h1
   · rw [ho w h1] at h; simp [csTask] at h
 
-theorem busy_not_exited {x : WSt V} {t : Task} (h : csTask x = some t) : (∀ c, x ≠ .exited c) ∧ busy x = true := by
-  constructor
+theorem busy_not_exited {x : WSt V} {t : Task} (h : csTask x = some t) : (∀ c, x ≠ .exited c) ∧ x ≠ .crashed ∧ busy x = true := by
+  refine ⟨?_, ?_, ?_⟩
   · intro c hx; rw [hx] at h; simp [csTask] at h
+  · intro hx; rw [hx] at h; simp [csTask] at h
   · simp [busy, h]
 
 /-- **preservation of the completeness invariant** by one accepted event of a participating worker whose scan obligation holds -/
@@ -406,7 +429,9 @@ theorem accept_cinv (P : Prog V) (fl : Worker → Flags) (n W : Nat) (sdeps : Ta
     (h : CInv n W sdeps fl s sc) (hc : FClean fl e) (hwW : ∀ w, evWorker e = some w → w < W)
     (hg : scanGuard n sc e = true) (hs : accept P fl s e = some s') : CInv n W sdeps fl s' (scanStep sdeps (kgOf fl) sc e) := by
   have hinv' : Inv s' := accept_inv P fl s s' e h.inv (legal_of_fclean fl s e hc) hs
-  obtain ⟨c2, c4, c5, c6⟩ := fclean_simple P fl hc hs h.nocrash h.nostop h.noraise h.ftkg
+  obtain ⟨c4, c5, c6⟩ := fclean_simple P fl hc hs h.nostop h.noraise h.ftkg
+  have c2 := nodead_step P fl hc hs h.nodead
+  have hcs := crashed_static P fl hc hs
   have hout' : ∀ w, W ≤ w → s'.wk w = .idle := by
     intro w hw
     have : evWorker e ≠ some w := by
@@ -429,7 +454,7 @@ theorem accept_cinv (P : Prog V) (fl : Worker → Flags) (n W : Nat) (sdeps : Ta
   · exact fun w t hw => hd_step P fl hs h.hd w t hw
   · -- done flags stay justified
     intro w t hd
-    rcases done_step P fl sdeps sc hc hs h.inv h.lf h.nocrash w t hd with h1 | h1 | h1 | h1
+    rcases done_step P fl sdeps sc hc hs h.inv h.lf h.nodead w t hd with h1 | h1 | h1 | h1
     · rcases h.dn w t h1 with h2 | ⟨w', h2⟩ | h2
       · left; exact hmono t h2
       · rcases hbusy w' t h2 with h3 | ⟨_, _, h3 | h3⟩
@@ -442,7 +467,7 @@ theorem accept_cinv (P : Prog V) (fl : Worker → Flags) (n W : Nat) (sdeps : Ta
     · right; right; exact h1
   · -- coverage
     intro t ht
-    rcases h.cov t ht with hA | ⟨d, hdm, hdn⟩ | hF | ⟨w, hwlt, hwne, hwit⟩
+    rcases h.cov t ht with hA | ⟨d, hdm, hdn⟩ | hF | ⟨w, hwlt, hwne, hwnc, hwit⟩
     · left; exact hmono t hA
     · -- a dependency had no result: it still has none, or it has just been stored by a worker that is still busy
       rcases res_of_accept P fl s s' e hs with hr | ⟨w, t', v, he, hwk, hr⟩
@@ -452,7 +477,7 @@ theorem accept_cinv (P : Prog V) (fl : Worker → Flags) (n W : Nat) (sdeps : Ta
           right; right; right
           have hb : csTask (s.wk w) = some t' := by simp [hwk, csTask]
           rcases hbusy w t' hb with h3 | ⟨_, he2, _⟩
-          · exact ⟨w, busy_lt W hout' w t' h3, (busy_not_exited h3).1, Or.inl (busy_not_exited h3).2⟩
+          · exact ⟨w, busy_lt W hout' w t' h3, (busy_not_exited h3).1, (busy_not_exited h3).2.1, Or.inl (busy_not_exited h3).2.2⟩
           · rw [he] at he2; simp at he2
         · right; left
           refine ⟨d, hdm, ?_⟩
@@ -471,7 +496,7 @@ theorem accept_cinv (P : Prog V) (fl : Worker → Flags) (n W : Nat) (sdeps : Ta
           obtain ⟨t0, hb0⟩ := hb'
           rcases hbusy w t0 hb0 with h3 | ⟨hidle, heq, hwhy⟩
           · right; right; right
-            exact ⟨w, hwlt, (busy_not_exited h3).1, Or.inl (busy_not_exited h3).2⟩
+            exact ⟨w, hwlt, (busy_not_exited h3).1, (busy_not_exited h3).2.1, Or.inl (busy_not_exited h3).2.2⟩
           · -- it has just left its critical section: its stuck flags are reset
             have hstuck : (scanStep sdeps (kgOf fl) sc e).stuck w t = false := by
               rcases heq with heq | heq <;> subst heq <;> simp [scanStep]
@@ -489,30 +514,31 @@ theorem accept_cinv (P : Prog V) (fl : Worker → Flags) (n W : Nat) (sdeps : Ta
                   · right; right; left; exact hfm t0 (h.ft w' t0 hwhy)
                 · rcases hbusy w' t h2 with h3 | ⟨_, _, h3 | h3⟩
                   · right; right; right
-                    exact ⟨w', busy_lt W hout' w' t h3, (busy_not_exited h3).1, Or.inl (busy_not_exited h3).2⟩
+                    exact ⟨w', busy_lt W hout' w' t h3, (busy_not_exited h3).1, (busy_not_exited h3).2.1, Or.inl (busy_not_exited h3).2.2⟩
                   · left; exact h3
                   · right; right; left; exact hfm t (h.ft w' t h3)
               · right; right; left; exact hfm t h2
             | false =>
               right; right; right
-              refine ⟨w, hwlt, by intro c; rw [hidle]; simp, Or.inr ?_⟩
+              refine ⟨w, hwlt, by intro c; rw [hidle]; simp, by rw [hidle]; simp, Or.inr ?_⟩
               simp [Scan.flagged, hstuck, hdone, hd0]
-        · rcases flag_step P fl sdeps n sc hc hs hg h.inv h.lf h.nocrash w he t ht hwne hf with
+        · rcases flag_step P fl sdeps n sc hc hs hg h.inv h.lf h.nodead w he t ht hwne hf with
             ⟨h1, h2⟩ | h1 | h1 | h1 | ⟨w', h1⟩ | h1
-          · right; right; right; exact ⟨w, hwlt, h2, Or.inr h1⟩
+          · right; right; right; exact ⟨w, hwlt, h2, fun hx => hwnc ((hcs w).mp hx), Or.inr h1⟩
           · right; right; right
-            refine ⟨w, hwlt, ?_, Or.inl h1⟩
-            intro c hx; rw [hx] at h1; simp [busy, csTask] at h1
+            refine ⟨w, hwlt, ?_, ?_, Or.inl h1⟩
+            · intro c hx; rw [hx] at h1; simp [busy, csTask] at h1
+            · intro hx; rw [hx] at h1; simp [busy, csTask] at h1
           · left; exact h1
           · right; left; exact h1
           · right; right; right
-            exact ⟨w', busy_lt W hout' w' t h1, (busy_not_exited h1).1, Or.inl (busy_not_exited h1).2⟩
+            exact ⟨w', busy_lt W hout' w' t h1, (busy_not_exited h1).1, (busy_not_exited h1).2.1, Or.inl (busy_not_exited h1).2.2⟩
           · right; right; left; exact h1
       · -- the event is by somebody else: the witness is untouched
         right; right; right
         have hwk := wk_of_accept P fl s s' e hs w he
         have hfr := scan_frame sdeps (kgOf fl) sc e w he
-        refine ⟨w, hwlt, by intro c; rw [hwk]; exact hwne c, ?_⟩
+        refine ⟨w, hwlt, by intro c; rw [hwk]; exact hwne c, by rw [hwk]; exact hwnc, ?_⟩
         rcases hwit with hb | hf
         · left; rw [hwk]; exact hb
         · right
@@ -524,6 +550,27 @@ theorem cinv_init (n W : Nat) (hW : 0 < W) (sdeps : Task → List Task) (fl : Wo
   refine ⟨inv_init res, ?_, ?_, ?_, ?_, ?_, ?_, ?_, ?_, ?_, ?_⟩ <;> intros <;> (try simp_all [initSys, Scan.init])
   right; right
   exact ⟨0, hW, Or.inr (by simp [Scan.flagged])⟩
+
+/-- the invariant holds in any regular state with no lock held and no failure pending in which a fresh worker is about to start -
+    in particular after workers were killed and `jug cleanup --locks-only` was run, and after workers were stopped -/
+theorem cinv_init_gen (n W : Nat) (sdeps : Task → List Task) (fl : Worker → Flags) (s : Sys V) (hi : Inv s)
+    (hfree : ∀ t, s.lock t = .free) (hwk : ∀ w, s.wk w = .idle ∨ s.wk w = .crashed ∨ ∃ c, s.wk w = .exited c)
+    (hout : ∀ w, W ≤ w → s.wk w = .idle) (w₀ : Worker) (hw₀ : w₀ < W) (hidle : s.wk w₀ = .idle) :
+    CInv n W sdeps fl s Scan.init := by
+  have hno : ∀ w x, s.wk w = x → x = .idle ∨ x = .crashed ∨ ∃ c, x = .exited c := by
+    intro w x hx; rw [← hx]; exact hwk w
+  refine ⟨hi, ?_, ?_, ?_, ?_, ?_, ?_, hout, ?_, ?_, ?_⟩
+  · intro t w h; rw [hfree t] at h; simp at h
+  · intro w o k h; rcases hno w _ h with h1 | h1 | ⟨c, h1⟩ <;> simp at h1
+  · intro w h; rcases hno w _ h with h1 | h1 | ⟨c, h1⟩ <;> simp at h1
+  · intro w t h; rcases hno w _ h with h1 | h1 | ⟨c, h1⟩ <;> simp at h1
+  · intro w t h; rcases hno w _ h with h1 | h1 | ⟨c, h1⟩ <;> simp at h1
+  · intro t w h; rw [hfree t] at h; simp at h
+  · intro w t h; rcases hno w _ h with h1 | h1 | ⟨c, h1⟩ <;> simp at h1
+  · intro w t h; simp [Scan.init] at h
+  · intro t ht
+    right; right; right
+    exact ⟨w₀, hw₀, by intro c; rw [hidle]; simp, by rw [hidle]; simp, Or.inr (by simp [Scan.init, Scan.flagged])⟩
 
 /-- histories of such events -/
 def FSteps (P : Prog V) (fl : Worker → Flags) : Sys V → List (Ev V) → Sys V → Prop
@@ -568,21 +615,22 @@ inductive Blocked (sdeps : Task → List Task) (failedT : Task → Bool) : Task 
 
 /-- from the invariant at quiescence to "every task has a result or is blocked", by well-founded induction over the dependencies -/
 theorem complete_of_cinv (n W : Nat) (sdeps : Task → List Task) (fl : Worker → Flags) (hlt : ∀ t d, d ∈ sdeps t → d < t)
-    (s : Sys V) (sc : Scan) (h : CInv n W sdeps fl s sc) (hq : ∀ w, w < W → ∃ c, s.wk w = .exited c) :
+    (s : Sys V) (sc : Scan) (h : CInv n W sdeps fl s sc) (hq : ∀ w, w < W → (∃ c, s.wk w = .exited c) ∨ s.wk w = .crashed) :
     ∀ t, t < n → s.res t ≠ none ∨ Blocked sdeps sc.failedT t := by
   intro t
   induction t using Nat.strongRecOn with
   | _ t ih =>
     intro ht
-    rcases h.cov t ht with hA | ⟨d, hdm, hdn⟩ | hF | ⟨w, hwlt, hwne, _⟩
+    rcases h.cov t ht with hA | ⟨d, hdm, hdn⟩ | hF | ⟨w, hwlt, hwne, hwnc, _⟩
     · exact Or.inl hA
     · have hdt := hlt t d hdm
       rcases ih d hdt (Nat.lt_trans hdt ht) with h1 | h1
       · exact absurd hdn h1
       · exact Or.inr (.dep hdm h1)
     · exact Or.inr (.failed hF)
-    · obtain ⟨c, hc⟩ := hq w hwlt
-      exact absurd hc (hwne c)
+    · rcases hq w hwlt with ⟨c, hc⟩ | hc
+      · exact absurd hc (hwne c)
+      · exact absurd hc hwnc
 
 /-- in a failure-free history nothing is ever recorded as failed -/
 theorem scanFold_failedT_clean (sdeps : Task → List Task) (kg : Worker → Bool) : ∀ (evs : List (Ev V)) (sc : Scan),
